@@ -82,6 +82,7 @@ func clearsFillBit(fn *ssa.Function) ssa.Instruction {
 // (the row counter today; a free-slot hint, a high-water mark tomorrow) all of them must maintain,
 // or the allocator's picture of the free offsets goes wrong on the path through the odd one.
 func ruleFillSiblings(r *Report) {
+	defer ruleRecountAfterChange(r)
 	h := r.Rule("C11.siblings", "S (sibling agreement)", "every function that clears a bit of the collection's fill list (commit of a Delete marker, rollback, release after a failed insert) writes the same set of Collection fields: allocator bookkeeping maintained by one releaser is maintained by all", 3)
 	type sib struct {
 		fn     *ssa.Function
